@@ -11,6 +11,11 @@ import py2lean  # noqa: E402
 
 N, B, L, T = py2lean.N, py2lean.B, py2lean.L, py2lean.T
 
+_SUP_FNS = {"constraint_stride_range": "stride_range", "constraint_dilated_height_range": "dilated_height_range",
+            "constraint_dilated_product_range": "dilated_product_range",
+            "constraint_filter_height_range": "filter_height_range",
+            "constraint_filter_product_range": "filter_product_range"}
+
 # key -> (path relative to the repo, Lean module name, [functions], per-function configuration)
 MODULES = {
     "fp_math": ("ethosu/vela/fp_math.py", "SrcFpMath", [
@@ -96,6 +101,19 @@ MODULES = {
     "live_range": ("ethosu/vela/live_range.py", "SrcLiveRange", [
         "LiveRange.overlaps_ranges"],
         {"LiveRange.overlaps_ranges": {"records": ["self", "other"]}}),
+    # third round: the boolean part of integer constraint predicates.  Wrapper assumptions (exactly): the decorator
+    # `docstring_format_args(..)` only formats `__doc__`; the second component of the returned pair (an f-string) has no
+    # effect; `op.get_kernel_stride()` returns a pair of integers and `cls.<x>_range` is a pair of integers (both become
+    # parameters); `op.kernel.height`, `op.kernel.area_height()`, ... are side-effect-free integer attributes / methods.
+    "tflite_supported_operators": ("ethosu/vela/tflite_supported_operators.py", "SrcTfliteSupportedOperators", [
+        "TFLiteSupportedOperators." + f for f in _SUP_FNS],
+        {"TFLiteSupportedOperators." + f: {"records": ["op"], "ignore_decorators": ["docstring_format_args"],
+                                           "ret_first_of_pair": True,
+                                           "opaque": {"op.get_kernel_stride": [N, N], "cls." + r: [N, N]}}
+         for f, r in _SUP_FNS.items()}),
+    "operation": ("ethosu/vela/operation.py", "SrcOperation", [
+        "Kernel.elements_wh", "Kernel.area_width", "Kernel.area_height"],
+        {"Kernel." + f: {"records": ["self"]} for f in ("elements_wh", "area_width", "area_height")}),
 }
 
 _cache = {}
